@@ -267,6 +267,10 @@ class Interp(ExprMixin, StmtMixin):
         for o in st.alloc:
             st.assume(obj.term != o)
         st.alloc.append(obj.term)
+        # ghost allocation clock: objects created at different moments are different objects, also across loop iterations
+        # (invariants speak of alloc_time(o) < clock() for what earlier iterations created)
+        st.assume(L.fn("alloc_time", L.V, L.I)(obj.term) == st.clock)
+        st.clock = st.clock + 1
         bound = self.bind_args(fnode, args, kwargs, skip_self=True)
         saved_mi, saved_env = self.mi, st.env
         env = {fnode.args.args[0].arg: obj}
@@ -729,6 +733,22 @@ class Interp(ExprMixin, StmtMixin):
         sv = self.seq_of(recv)
         return self._writeback(bm, ZV(L.seq_append(sv.term, as_v(args[0])), recv.tag))
 
+    def m_pop(self, recv, args, kwargs, bm, node):
+        """list.pop() (last element) on a locally held list."""
+        if args:
+            raise Unsupported("pop with an argument on %r" % (recv,))
+        if isinstance(recv, PySeq):
+            if not recv.items:
+                raise RaisedEx(ExcVal("IndexError"), getattr(node, "lineno", 0))
+            self._writeback(bm, PySeq(recv.items[:-1], recv.kind))
+            return recv.items[-1]
+        sv = self.seq_of(recv)
+        n = L.len_(sv.term)
+        self.partial(n >= 1, "IndexError", node, "pop-empty")
+        last = self.retag(L.nth(sv.term, n - 1), self.elem_tag(sv))
+        self._writeback(bm, ZV(L.seq_slice(sv.term, z3.IntVal(0), n - 1), recv.tag))
+        return last
+
     def m_extend(self, recv, args, kwargs, bm, node):
         other = args[0]
         if isinstance(recv, PySeq) and isinstance(other, PySeq):
@@ -867,6 +887,7 @@ class Interp(ExprMixin, StmtMixin):
         self.st = st
         L._fresh[0] = 0      # deterministic names per path prefix: shared prefixes give identical terms (dedupe)
         self.effects0 = st.effects = L.const("eff0")
+        self.clock0 = st.clock = L.const("clock0", L.I)
         self.yielded = ZV(L.EMPTY_SEQ, "seq")
         self.body_raised = False
         self.handling = []
